@@ -24,6 +24,14 @@ fn main() {
             s.require("backward-clock", 3000);
             s.require("restart", 5000);
             s.require("sender-overflow", 2000);
+            // artifacts of the libFuzzer target `file_c11` (engine E6 over E3) are replayed through the same entry
+            s.manual("fuzz-artifact", Vec::<Vec<u8>>::new(), |bytes, cx| {
+                cx.nontrivial(true);
+                match fsim::fuzz::entry(bytes, Prop::C11) {
+                    Ok(()) => Ok(()),
+                    Err(f) => cx.fail(f.sig, format!("{}; decoded case: {:?}", f.msg, fsim::fuzz::decode(bytes))),
+                }
+            });
             s.gen("histories", s.n(400_000, 12_000_000), || gen::hist(Focus::Config), |h, cx| gen::check(h, Prop::C11, cx));
             let bases = s.sample("single-fault-bases", gen::hist(Focus::Config), s.n(400, 12_000) as usize);
             s.enumerate("single-fault-exhaustive", bases.into_iter().flat_map(gen::single_fault_placements), |h, cx| gen::check(h, Prop::C11, cx));
